@@ -1,7 +1,8 @@
-/* quiet stubs for p@p@gssv: every callee counts its call in g_seq and writes nothing the caller can see
- * except what the real routine is documented to produce (*info of the factor/solve routines).  Used by the
- * unit that is EXPECTED to reach the computation (a documented argument check the driver does not make):
- * with these stubs the only red obligations are the contract clauses pos7 / handler / nothing_reached. */
+/* gssv_stubs.c -- quiet stubs for p@p@gssv (units args_gssv, args_gssv_btype): every callee of the driver counts its call
+ * in g_seq and writes nothing the caller can see except what the real routine is documented to produce (*info of the
+ * factor / solve routines).  xerbla_ records its argument.  In args_gssv g_seq is not in the frame, so reaching any callee
+ * is a frame violation as well as a failure of 'nothing_reached'.  In args_gssv_btype (EXPECTED to reach the computation:
+ * a documented argument check the driver does not make) the only red obligations are pos7 / handler / nothing_reached. */
 #include <stdlib.h>
 #include "slu_mt_@p@defs.h"
 int nondet_int(void);
